@@ -80,6 +80,13 @@ CleanNamed(sel, pts, now) ==
   /\ \A i, j \in 1..Len(pts) : i # j =>
         ClassOf(cfg, sel, AlignW(StepOf(cfg, sel), pts[i].t)) # ClassOf(cfg, sel, AlignW(StepOf(cfg, sel), pts[j].t))
 
+\* a by-name write whose points fall into pairwise different intervals: its outcome on the named archive is a matter of
+\* ring storage alone (two intervals one lap apart: the later one replaces the earlier; a single point older than the named
+\* archive's retention still takes its slot) - the whole archive is compared.  Several points in ONE interval are C03's.
+DistinctIntervals(sel, pts) ==
+  /\ sel # 0
+  /\ \A i, j \in 1..Len(pts) : i # j => AlignW(StepOf(cfg, sel), pts[i].t) # AlignW(StepOf(cfg, sel), pts[j].t)
+
 \* points of a by-name batch that are alone in their ring slot (no other point of the batch - whatever its age - maps to
 \* the same slot), inside the archive's retention and not in the future: whatever else the batch contains (duplicates in
 \* other intervals, stale points, more points than the ring has slots), afterwards the slot holds exactly that point
@@ -98,7 +105,7 @@ ApplyNamed(o, a, pts) ==
 WriteStep(name, sel, pts, now, expected, post) ==
   LET obs == Full(cfg, post)
       spec == expected.ring
-  IN /\ P("C01") /\ CleanNamed(sel, pts, now) => Content(obs[sel]) = Content(spec[sel])
+  IN /\ P("C01") /\ (CleanNamed(sel, pts, now) \/ DistinctIntervals(sel, pts)) => Content(obs[sel]) = Content(spec[sel])
      /\ P("C01") /\ sel # 0 =>
           \A i \in AloneIn(sel, pts, now) :
              \E k \in 1..NOf(cfg, sel) : obs[sel][k] = [t |-> AlignW(StepOf(cfg, sel), pts[i].t), v |-> pts[i].v]
